@@ -1,4 +1,5 @@
 use poulpy_hal::{
+    DEFAULTALIGN,
     api::{
         ScratchAvailable, ScratchTakeBasic, VecZnxAddNormal, VecZnxFillUniform, VecZnxNormalizeAssign, VecZnxNormalizeTmpBytes,
     },
@@ -46,7 +47,8 @@ where
     {
         let size: usize = infos.size();
 
-        let lvl_0: usize = LWEPlaintext::bytes_of(size);
+        // The next take re-aligns to DEFAULTALIGN: pay for the padding after this 8-bytes-per-limb buffer.
+        let lvl_0: usize = LWEPlaintext::bytes_of(size).next_multiple_of(DEFAULTALIGN);
         let lvl_1: usize = self.vec_znx_normalize_tmp_bytes();
 
         lvl_0 + lvl_1
